@@ -1,6 +1,6 @@
 #!/bin/bash
 cd /verif
-for e in attrs canonicalize clone comments decimal dom dual escape exec fastscan format forms incr incr_fail incr_queries intern intersect lex lexpos lextotal link literal nesting options optmodes relink reporter reportproto resolve retention roundtrip sourceloc srcinfo symbols toposort trie unusedimports visibility xlex xparse; do
+for e in optvalidate incr_diag attrs canonicalize clone comments decimal dom dual escape exec fastscan format forms incr incr_fail incr_queries intern intersect lex lexpos lextotal link literal nesting options optmodes relink reporter reportproto resolve retention roundtrip sourceloc srcinfo symbols toposort trie unusedimports visibility xlex xparse; do
   mkdir -p /var/tmp/cov/$e /var/tmp/covout/$e
   c=""; [ -d corpus/$e ] && c="-corpus corpus/$e"
   GOCOVERDIR=/var/tmp/cov/$e timeout 900 ${PCVH_COVER:-/var/tmp/pcvh-cover4} run $e -seed 1 -tier quick -out /var/tmp/covout/$e $c >/dev/null 2>/var/tmp/covout/$e/err.txt
